@@ -46,11 +46,14 @@ class V3Unit(WireUnit):
         self.priv_calls = []
 
     def h_hasher(self, interp, closure, args, kwargs):
-        impl = closure.frame.locals.get("hash_implementation")
+        params = [a.arg for a in closure.frame.func.info.node.args.args]      # password_to_key(hash_implementation, padding_length)
+        if len(params) != 2:
+            raise Undecided("password_to_key no longer takes (hash implementation, padding length)")
+        impl = closure.frame.locals.get(params[0])
         name = getattr(impl, "name", "")
         if name not in ("hashlib.md5", "hashlib.sha1"):
             raise Undecided("password_to_key with an unknown hash implementation")
-        pad = closure.frame.locals.get("padding_length")
+        pad = closure.frame.locals.get(params[1])
         want = 16 if name == "hashlib.md5" else 20
         if pad != want:
             # a truncated key is not the RFC key: fall back to the real body (KeyDerivation reports it)
